@@ -200,8 +200,15 @@ func readonlyBatch(r *vh.Run, i int) {
 		c.Storage.ReadOnly = vh.BP(true)
 	}
 	c.Storage.GC.Frequency = 3 * time.Millisecond
+	// a quarter of the batches serve the fixture with the referrers API switched off - also the fixtures a registry
+	// with the API on has written (their index.json says "converted"): a store that cannot write still serves them
+	refOff := (i/27)%4 == 3
+	if refOff {
+		c.API.Referrer.Enabled = vh.BP(false)
+		r.Count("readonly_batches_referrers_off", 1)
+	}
 	srv := vh.New(c)
-	wit := map[string]any{"batch": i, "store": kind.String(), "read_only": ro, "fixture": f.kind}
+	wit := map[string]any{"batch": i, "store": kind.String(), "read_only": ro, "fixture": f.kind, "referrers_api": !refOff}
 	var trace []string
 	viol := func(sig, detail string) {
 		tr := trace
@@ -263,6 +270,9 @@ func readonlyBatch(r *vh.Run, i int) {
 				for _, p := range s.Prob {
 					if kind == vh.MemDir && !strings.HasPrefix(p, "tag ") {
 						continue // untagged content may be collected (in memory) between two reads
+					}
+					if refOff && strings.HasPrefix(p, "referrers ") {
+						continue // switched off: 404 is the documented answer
 					}
 					viol("content-not-served:damaged", when+": "+p)
 					return false
